@@ -26,6 +26,10 @@ import Pandora.Proofs.C02Cb
 import Pandora.Bridge.C02Cb
 import Pandora.Bridge.C02Src
 import Pandora.Bridge.C02IStep
+import Pandora.Proofs.C02Huge
+import Pandora.Proofs.C02LeafPar
+import Pandora.Proofs.C02Width
+import Pandora.Bridge.C02Leaf
 
 set_option linter.unusedVariables false
 
@@ -722,7 +726,112 @@ theorem C02_instance_step_is_source (frm upto step : Nat) (hs : 1 ≤ step) (dur
       instanceStepTree frm upto step dur :=
   Pandora.Bridge.C02IStep.instanceStep_bridge frm upto step hs dur
 
+/-! ## round 3: huge token counts, machine integers, the inside of a leaf -/
+
+open Pandora.Proofs.C02Huge Pandora.Proofs.C02LeafPar Pandora.Proofs.C02Width Pandora.Model.C02.LeafPar in
+/-- **Trees with parts of ANY size** (2^31, 2^32, 2^62 tokens in one part: a million operations per second for an hour,
+`once(1<<32)`).  A run tree (`Model/C02Huge.lean`: the offsets of a leaf run-length encoded, the composite the same
+generic `NewComposite` / `Next` / `Left`) is built without panic and returns, for every sequence of Start/Next/Left
+calls with a non-decreasing clock, exactly what the flat spec returns for the EXPANDED tree — the tree with all
+offsets written out, which `C02_tree_refines`, `C02_seq_refines` and all contract theorems talk about. -/
+theorem C02_huge_refines (now0 : Int) (t : HTree) (d : Nat) (hd : t.depth ≤ d) :
+    ∃ s, hbuild now0 d t = .ok s ∧ ∀ (calls : List (SOp × Int)) (clk0 : Int), ClockSeq clk0 calls →
+      seqRun (hlvlOps d) s calls = absRun (.unstarted (flat t.expand)) calls := by
+  obtain ⟨s, hs, hU⟩ := Pandora.Proofs.C02Huge.hbuild_ok now0 d t hd
+  exact ⟨s, hs, fun calls clk0 hclk => seq_refines (Pandora.Proofs.C02Huge.hlvlSem d) calls s _ clk0 hU hclk⟩
+
+/-- `instance_step` with steps of any size: the run tree the driver uses stands for `instanceStepTree` -/
+theorem C02_huge_instance_step (frm upto step : Nat) (dur : Int) :
+    (hinstanceStepTree frm upto step dur).expand = instanceStepTree frm upto step dur :=
+  Pandora.Proofs.C02Huge.hinstanceStepTree_expand frm upto step dur
+
+/-- **The counts do not overflow** (`Gen/C02Src.lean` re-translates the loop of `NewComposite` and the decision of
+`compositeSchedule.Left` a second time, in MACHINE integers: every +, -, * wraps at the width of its Go type, every
+conversion at the width of its target, the suffix sums are stored in elements of the width the source declares).
+The elements are 64 bits wide; while the running sum stays below 2^63 the machine loop body and the machine decision
+are the ones over the integers (which the model uses); and every `leftAfter` entry of every composite is the count of a
+suffix of the parts (`sufsP`), between -1 and the number of finite tokens, so a schedule with fewer than 2^63 tokens
+never leaves that range. -/
+theorem C02_no_overflow :
+    (Pandora.Gen.C02Src.NewComposite_leftElemBits = 64 ∧ Pandora.Gen.C02Src.compositeSchedule_leftAfter_elemBits = 64) ∧
+    (∀ (acc : Int) (unknown : Bool) (l : Int), -1 ≤ acc → -9223372036854775808 ≤ l → acc + l < 9223372036854775808 →
+      acc < 9223372036854775808 →
+      Pandora.Gen.C02Src.NewComposite_loopBodyW acc unknown l = Pandora.Gen.C02Src.NewComposite_loopBody acc unknown l) ∧
+    (∀ (n la left : Int) (started : Bool), -1 ≤ la → -1 ≤ left → left + la < 9223372036854775808 → la < 9223372036854775808 →
+      left < 9223372036854775808 →
+      Pandora.Gen.C02Src.compositeSchedule_Left_decideW n la left started =
+        Pandora.Gen.C02Src.compositeSchedule_Left_decide n la left started) ∧
+    (∀ (pss : List (List Part)), (Pandora.Proofs.C02Width.finTotal pss.flatten : Int) < 9223372036854775808 →
+      ∀ x ∈ sufsP pss, (-1 ≤ x ∧ x ≤ (Pandora.Proofs.C02Width.finTotal pss.flatten : Int)) ∧ Pandora.Go.wrapInt 64 x = x) :=
+  ⟨Pandora.Bridge.C02Src.elemBits_are_source,
+   fun acc unknown l h1 h2 h3 h4 => Pandora.Bridge.C02Src.loopBodyW_eq acc unknown l h1 h2 h3 h4,
+   fun n la left started h1 h2 h3 h4 h5 => Pandora.Bridge.C02Src.leftDecideW_eq n la left started h1 h2 h3 h4 h5,
+   fun pss h x hx => ⟨Pandora.Proofs.C02Width.sufsP_bounds pss x hx, Pandora.Proofs.C02Width.sufsP_fits pss h x hx⟩⟩
+
+/-- **Inside a leaf, any interleaving.**  A leaf — ANY object that refines the flat spec: the `doAt` leaf, the
+unlimited leaf, the run leaf — whose `Next` is the once (`startOnce.Do`: start at the clock reading if not started)
+followed by ONE atomic operation and whose `Left` is one atomic operation is linearizable to the atomic flat spec: for
+every number of callers, all their programs, every interleaving of the actions (enter the call / the once / the
+operation) and every non-decreasing clock the log is a run of the atomic spec (`Reach`), from the unstarted object or
+from one started earlier.  So all contract theorems of part B hold for a bare leaf under concurrent callers, and a
+leaf may be used by `C02_conc_linearizable` as an atomic child (locality). -/
+theorem C02_leaf_conc_linearizable {σ : Type} (ops : Ops σ) (sem : Sem ops) (s : σ) (A0 : Abs) (clk0 : Int)
+    (h0 : (∃ parts, A0 = .unstarted parts ∧ sem.U s parts) ∨ (∃ segs, A0 = .running segs ∧ sem.R s segs clk0))
+    (progs : List (List Op)) (sched : List (Nat × Int)) (hclk : ClockOK clk0 sched) :
+    ∃ A, Reach A0 (Pandora.Model.C02.LeafPar.lrun ops (Pandora.Model.C02.LeafPar.linit s progs) sched).log A := by
+  have hinv : Pandora.Proofs.C02LeafPar.LInv sem A0 (Pandora.Model.C02.LeafPar.linit s progs) clk0 := by
+    refine ⟨A0, rfl, ?_⟩
+    rcases h0 with ⟨parts, hA, hU⟩ | ⟨segs, hA, hR⟩
+    · refine Or.inr ⟨parts, hA, hU, ?_⟩
+      intro th hth
+      simp only [Pandora.Model.C02.LeafPar.linit, List.mem_map] at hth
+      obtain ⟨p, _, rfl⟩ := hth
+      simp
+    · exact Or.inl ⟨segs, hA, hR⟩
+  obtain ⟨A, h, _⟩ := Pandora.Proofs.C02LeafPar.lrun_inv sem sched _ clk0 hclk hinv
+  exact ⟨A, h⟩
+
+/-- the `doAt` leaf (once / const / line), not started: the engine's case -/
+theorem C02_doAt_conc (offs : List Int) (dur : Int) (progs : List (List Op)) (sched : List (Nat × Int)) (clk0 : Int)
+    (hclk : ClockOK clk0 sched) :
+    ∃ A, Reach (.unstarted [Part.fin offs dur])
+      (Pandora.Model.C02.LeafPar.lrun leafOps (Pandora.Model.C02.LeafPar.linit (Leaf.fin offs dur 0 none) progs) sched).log A :=
+  C02_leaf_conc_linearizable leafOps leafSem _ _ clk0 (Or.inl ⟨_, rfl, by simp [leafSem, leafU]⟩) progs sched hclk
+
+/-- **The leaves of the model touch their shared state as the leaves of the source do** (`Gen/C02Leaf.lean` is
+re-extracted from do_at.go / unlilmited.go on every check): per method the statements with accesses to atomics, the
+once, methods of the receiver and plain fields are those of `Model/C02LeafPar.lean` — `Next`: the once, then one
+statement (`i.Inc`: ONE fetch-and-increment / `finish.Load`); `Left`: one statement — and plain fields are written inside
+the once only. -/
+theorem C02_leaf_accesses_are_source :
+    Pandora.Bridge.C02Leaf.flatAccesses Pandora.Gen.C02Leaf.leafAccesses =
+      [("doAtSchedule", "Left", Pandora.Model.C02.LeafPar.doAtLeftAccesses.flatten),
+       ("doAtSchedule", "Next", Pandora.Model.C02.LeafPar.doAtNextAccesses.flatten),
+       ("unlimitedSchedule", "Left", Pandora.Model.C02.LeafPar.unlLeftAccesses.flatten),
+       ("unlimitedSchedule", "Next", Pandora.Model.C02.LeafPar.unlNextAccesses.flatten)] ∧
+    (Pandora.Bridge.C02Leaf.flatAccesses Pandora.Gen.C02Leaf.leafAccesses).filter (fun r => r.1 == "doAtSchedule") =
+      [("doAtSchedule", "Left", ["i.Load"]), ("doAtSchedule", "Next", ["startOnce.Do", "i.Inc"])] ∧
+    (∀ r ∈ Pandora.Gen.C02Leaf.leafPlainWrites, r.2.2.2 = true) :=
+  ⟨Pandora.Bridge.C02Leaf.accesses_eq, Pandora.Bridge.C02Leaf.index_is_fetch_and_increment,
+   Pandora.Bridge.C02Leaf.plain_writes_in_once⟩
+
 /-! ## non-vacuity -/
+
+-- a run tree with 2 + 2^32 tokens: composite(once(2), const(0, 1 s), once(1<<32)); Left is exact all the way
+example : (match newComposite hleafOps 0 [HLeaf.fin [⟨0, 0, 2⟩] 0 0 none, HLeaf.fin [] 1000000000 0 none,
+      HLeaf.fin [⟨0, 0, 4294967296⟩] 0 0 none] with
+    | .ok (.inr c) => seqRun (compOps hleafOps) c [(.start 0, 0), (.left, 0), (.next, 0), (.next, 0), (.left, 0), (.next, 0), (.left, 0)]
+    | _ => []) =
+    [.started, .cnt 4294967298, .tok 0 true, .tok 0 true, .cnt 4294967296, .tok 1000000000 true, .cnt 4294967295] := by decide
+
+-- two callers race inside a once(1) leaf: both pass the once, one gets the token, `Left` is 0 afterwards
+example : ((Pandora.Model.C02.LeafPar.lrun leafOps (Pandora.Model.C02.LeafPar.linit (Leaf.fin [0] 0 0 none) [[.next, .left], [.next]])
+    [(0, 5), (1, 5), (0, 5), (1, 5), (1, 6), (0, 6), (0, 7), (0, 7)]).log.map (·.2.2)).reverse =
+    [.goto .idle, .goto .idle, .goto .nextB, .goto .nextB, .ret (.tok 5 true), .ret (.tok 5 false), .goto .idle, .ret (.cnt 0)] := by decide
+
+-- the machine-integer loop body with a 64-bit element: 2^32 is stored as it is
+example : Pandora.Gen.C02Src.NewComposite_loopBodyW 4294967296 false 2 = (4294967296, 4294967298, false) := by decide
+
 
 -- the flat spec on [once(1) with duration 5; unlimited(10); once(2)] started at 0, clock 7, 7, 20, 20, 20, 20
 example : absRun (.unstarted [.fin [0] 5, .unl 10, .fin [0, 0] 0])
